@@ -173,7 +173,7 @@ def eval_node(n, val):
         return UMAX
     if k == "Lit":
         t = n["lit"]["t"]
-        if t in ("int", "bool"):
+        if t in ("int", "bool", "byte", "char") and isinstance(n["lit"]["v"], (int, bool)):
             return n["lit"]["v"]
         return None
     if k == "Unary" and n.get("op") == "Not":
@@ -194,6 +194,7 @@ def eval_node(n, val):
         try:
             return {"Lt": lambda: a < b, "Le": lambda: a <= b, "Gt": lambda: a > b, "Ge": lambda: a >= b, "Eq": lambda: a == b,
                     "Ne": lambda: a != b, "Add": lambda: a + b, "Sub": lambda: a - b, "Mul": lambda: a * b,
+                    "Div": lambda: a // b, "Rem": lambda: a % b,
                     "And": lambda: a and b, "Or": lambda: a or b}[op]()
         except (KeyError, TypeError):
             return None
@@ -444,3 +445,29 @@ def ret_value(path):
     if path.exit in ("return", "fall"):
         return path.val
     return None
+
+
+def option_forwarding(fn, fld, meth):
+    """Path by path: is `<options>.<fld>` (an Option) decided, and is `.<meth>(Some(v))` called with the value bound
+    on exactly the paths where it is Some?  Returns (ok, reason).  Reads `if let`, `match`, `let .. else` alike."""
+    seen = {"some": 0, "none": 0}
+    for p in paths_of(fn["body"], max_paths=200000):
+        if p.exit == "try-err":
+            continue
+        oc = opt_outcomes(p, "{o}.%s" % fld)
+        calls = [ev.a for ev in p.events if ev.kind == "call" and (ev.b or "").endswith("::" + meth)]
+        if not oc:
+            if calls:
+                return False, "%s is called on a path that did not look at %s" % (meth, fld)
+            return False, "a path does not look at %s" % fld
+        kind, pat = oc[-1][1], oc[-1][2]
+        seen[kind] += 1
+        if kind == "some":
+            m = H.pat_match("Some({v})", pat or "")
+            if not m or len(calls) != 1 or not calls[0].endswith(".%s(Some(%s))" % (meth, m.group("v"))):
+                return False, "with %s set, %s must be called once with Some(that value) (found %s)" % (fld, meth, calls)
+        elif calls:
+            return False, "with %s unset, %s must not be called (found %s)" % (fld, meth, calls)
+    if min(seen.values()) < 1:
+        return False, "both outcomes of %s must be handled (found %s)" % (fld, seen)
+    return True, ""
